@@ -167,6 +167,8 @@ pub struct ChanRun {
     pub wakes:     Vec<Vec<(u64, usize)>>,
     pub dead_waker_uses: u32,
     pub dead_waker_uses_superseded: u32,
+    /// (tick, thread, tag) of selected library yield points (sched::MARK_TAGS)
+    pub marks:     Vec<(u64, usize, &'static str)>,
     pub prefill:   Vec<u64>,
     pub pending_at_quiescence: u32,
     pub running_at_quiescence: u32,
@@ -291,7 +293,7 @@ pub fn execute(case: &ChanCase, epi: Epilogue) -> ChanRun {
         Err(end) => {
             payload::set_current_ledger(None);
             return ChanRun { end: match end { EndState::Stall { .. } => EndState::Stall { stuck: vec![(n_prod + n_cons, 0)], parked: vec![] }, other => other }, trace: vec![], inside: 0,
-                ends: vec![], sends: vec![], polls: vec![], releases: vec![], lens: vec![], cancels: vec![], consumers: vec![ConsumerEnd::default(); n_cons], wakes: vec![vec![]; n_cons], dead_waker_uses: 0, dead_waker_uses_superseded: 0,
+                ends: vec![], sends: vec![], polls: vec![], releases: vec![], lens: vec![], cancels: vec![], consumers: vec![ConsumerEnd::default(); n_cons], wakes: vec![vec![]; n_cons], dead_waker_uses: 0, dead_waker_uses_superseded: 0, marks: vec![],
                 prefill: vec![], pending_at_quiescence: 0, running_at_quiescence: 0, quiescence_tick: 0, capacity_probe: None, ledger: vec![], ledger_corrupt: 0, n_producers: n_prod, open_after: None,
                 prefill_rejected: false, cur_ops: { let mut v = vec![String::new(); n_prod + n_cons]; v.push("set-up (create channel / streams / prefill)".into()); v }, running_after_drop: None, recreate: None };
         },
@@ -335,7 +337,7 @@ pub fn execute(case: &ChanCase, epi: Epilogue) -> ChanRun {
     let mut run = ChanRun {
         end: outcome.end.clone(), trace: outcome.trace, inside: outcome.switches_inside_ops,
         ends: vec![], sends: vec![], polls: vec![], releases: vec![], lens: vec![], cancels: vec![], consumers: vec![],
-        wakes: outcome.wakes[n_prod..].to_vec(), dead_waker_uses: outcome.dead_waker_uses, dead_waker_uses_superseded: outcome.dead_waker_uses_superseded, prefill,
+        wakes: outcome.wakes[n_prod..].to_vec(), dead_waker_uses: outcome.dead_waker_uses, dead_waker_uses_superseded: outcome.dead_waker_uses_superseded, marks: outcome.marks.clone(), prefill,
         pending_at_quiescence: 0, running_at_quiescence: 0, quiescence_tick, capacity_probe: None,
         ledger: vec![], ledger_corrupt: 0, n_producers: n_prod, open_after: None, prefill_rejected, cur_ops: vec![], running_after_drop: None, recreate: None,
     };
